@@ -42,11 +42,16 @@ META = dict(
                'dadi.Spectrum_mod.Spectrum arithmetic operators (__add__ .. __rtruediv__)'],
     files=['dadi/Inference.py', 'dadi/Numerics.py', 'dadi/Spectrum_mod.py'],
     bounds=dict(
-        quick='shapes (4,),(5,),(2,3),(3,3),(2,2,2) (<= 9 entries); (4,): all pairs of inner mask patterns; other '
-              'shapes: 3-4 structured + seeded pattern pairs each; folded data against unfolded and folded models for '
-              '(4,),(5,),(2,3),(3,3); residual with symbolic mask level on <= 4 entries; Gibbs (stretch) 2-3 entries',
-        thorough='as quick plus (5,) all pairs of inner mask patterns, (2,3) all pairs over the 4 non-corner entries '
-                 'restricted to <= 2 masked each, more seeded pairs for (3,3),(2,2,2),(3,4),(2,2,3); Gibbs up to 4'),
+        quick='shapes (4,),(5,),(2,3),(3,3),(2,2,2) (<= 9 entries); (4,): all 16 pairs of inner mask patterns; other '
+              'shapes: 3 structured + 2 seeded independent pattern pairs each, corners masked in both / unmasked '
+              'in the model only / unmasked in both (equal and differing masks; shapes (4,),(2,3)); folded data against unfolded '
+              '(auto-fold) and already folded models for (4,),(5,),(2,3),(3,3); ll and multinomial laws on every case, '
+              'rescaling invariance / maximum / residuals on every third case (all folded cases) with <= 6 entries; '
+              'residual with symbolic mask level on <= 3 jointly unmasked entries; Gibbs (stretch) 2-3 free entries',
+        thorough='as quick plus (5,) all 64 pairs of inner mask patterns, (2,3) all pairs of patterns with <= 2 of the '
+                 '4 non-corner entries masked, 9 pairs for (3,3),(2,2,2), shapes (3,4),(2,2,3),(6,) added (<= 12 '
+                 'entries); rescaling / residual laws on every case with <= 9 entries; symbolic mask level on <= 5 '
+                 'entries; Gibbs up to 6 free entries'),
     outside=['Anscombe_Poisson_residual (fractional powers)', 'float round-off', 'model <= 0 on an unmasked entry '
              '(numpy.ma.log domain masking; only the warning text differs)', 'sum(data)=0 over the joint entries '
              '(theta=0: everything masked)', 'the text of the diagnostic warnings of ll_per_bin',
@@ -57,7 +62,15 @@ META = dict(
            'scipy.special.gammaln -> contract stub: one solver real per distinct argument, argument proved = data+1; '
            'mask of a masked input is propagated like a numpy ufunc does',
            'numpy.ma.sqrt -> contract stub s with s>=0, s*s=arg (exact characterisation); domain arg<0 -> masked',
-           'numpy.logical_and inside Inference -> non-forking z3 And with numpy.ma mask propagation (diagnostics only)',
+           'numpy.logical_and inside Inference and the comparison operators of Spectrum (<,<=,>,>=,==,!=) -> non-forking '
+           'elementwise z3 terms with numpy.ma mask propagation (numpy would call bool() on every element: 2^entries '
+           'forks inside the diagnostics of ll_per_bin); the residual mask level test uses them too and is then '
+           'forked entry by entry in numpy.ma.masked_where',
+           'valid facts assumed about the log stub variables of one entry across calls: equal arguments -> equal '
+           'values, smaller argument -> smaller value (keeps counterexamples realistic)',
+           'replay: the solver witness is tried first on the real float code; if it sits on a coincidence of the '
+           'special functions (lgamma(1)=lgamma(2)) up to two deterministic in-domain perturbations are tried; a '
+           'violation is only reported when the real code fails against the oracle on a concrete in-domain input',
            'Inference.logger / print -> silent; "%g" % Sym inside the logger.warning(...) statements of ll_per_bin '
            'formats as nan (text goes to the silenced logger only)',
            'axiom instances used by the rescale-max / Gibbs units: log(x*y)=log x+log y and log(x)<=x-1 for x,y>0',
@@ -351,7 +364,7 @@ def _log(env, call, idx, expected_arg, label):
     with the obligation that the code's argument there equals expected_arg; concrete -> math.log."""
     if env.symbolic:
         args, outs, _ = call
-        env.eq('%s:log-arg%s' % (label, list(idx)), args[idx], expected_arg)
+        _eq(env, '%s:log-arg%s' % (label, list(idx)), args[idx], expected_arg)
         return outs[idx]
     return math.log(expected_arg)
 
@@ -359,9 +372,53 @@ def _log(env, call, idx, expected_arg, label):
 def _lgam(env, call, idx, expected_arg, label):
     if env.symbolic:
         args, outs = call
-        env.eq('%s:gammaln-arg%s' % (label, list(idx)), args[idx], expected_arg)
+        _eq(env, '%s:gammaln-arg%s' % (label, list(idx)), args[idx], expected_arg)
         return outs[idx]
     return math.lgamma(expected_arg)
+
+
+def _eq(env, label, a, b, **kw):
+    """env.eq; on replay a non-finite / masked value where the oracle is finite is a failure (the harness
+    tolerance is relative to max(|a|,|b|), which would accept inf)."""
+    if not env.symbolic:
+        with np.errstate(all='ignore'):
+            fa = float(a) if a is not np.ma.masked else float('nan')
+            fb = float(b) if b is not np.ma.masked else float('nan')
+        if not (math.isfinite(fa) and math.isfinite(fb)):
+            env.holds(label + ' (finite)', False)
+            return
+    env.eq(label, a, b, **kw)
+
+
+def _perturb(values, k):
+    """Generic in-domain point near the solver's witness (all preconditions are positivity constraints, offsets
+    are positive): used only to confirm a violated obligation on the real code when the solver's own witness sits
+    on a coincidence of the special functions (lgamma(1)=lgamma(2), log(1)=0)."""
+    out = {}
+    for i, (n, v) in enumerate(sorted(values.items())):
+        if v is None or not (n[:2] in ('m_', 'd_') or n in ('c', 'k', 'lvl')):
+            out[n] = v
+            continue
+        out[n] = str(Fr(v) + Fr(37 + 11 * k + 13 * ((i * 7 + k) % 10), 100))
+    return out
+
+
+def _replay_for(body):
+    def rp(values):
+        last = None
+        for k in range(3):
+            vals = values if k == 0 else _perturb(values, k)
+            env = H.ConcEnv(None, vals)
+            try:
+                body(env)
+            except Exception as e:
+                env.failed.append(('unexpected-exception:%s:%s' % (type(e).__name__, str(e)[:160]), None, None))
+            last = dict(reproduced=bool(env.failed) and env.domain_ok, failed=[tuple(f) for f in env.failed[:10]],
+                        checked=env.checked, domain_ok=env.domain_ok, attempt=k, values=vals if k else 'solver')
+            if last['reproduced']:
+                return last
+        return last
+    return rp
 
 
 def _calls(env, lst, n, label):
@@ -399,14 +456,14 @@ def body_ll(P):
             L = _log(env, lc[0], idx, c.mf[idx], 'll')
             G = _lgam(env, gc[0], idx, c.d[idx] + 1, 'll')
             want = -c.mf[idx] + c.d[idx] * L - G
-            env.eq('per-bin%s' % list(idx), pbd[idx], want)
+            _eq(env, 'per-bin%s' % list(idx), pbd[idx], want)
             tot = tot + want
         del LOGCALLS[:], GAMCALLS[:]
         with np.errstate(all='ignore'):
             ll = Inference.ll(c.M, c.D)
             mll = Inference.minus_ll(c.M, c.D)
-        env.eq('ll = sum over joint', ll, tot)
-        env.eq('minus_ll', mll, -tot)
+        _eq(env, 'll = sum over joint', ll, tot)
+        _eq(env, 'minus_ll', mll, -tot)
     return _with_ack(body)
 
 
@@ -427,13 +484,13 @@ def body_mn(P):
         with np.errstate(all='ignore'):
             th = Inference.optimal_sfs_scaling(c.M, c.D)
         tho = sd / sm
-        env.eq('theta = sum d / sum m over joint', th, tho)
+        _eq(env, 'theta = sum d / sum m over joint', th, tho)
         with np.errstate(all='ignore'):
             osf = Inference.optimally_scaled_sfs(c.M, c.D)
         _mask_is(env, 'optimally_scaled_sfs mask', osf, c.mm)
         for idx in np.ndindex(*c.shape):
             if not c.mm[idx]:
-                env.eq('optimally_scaled_sfs%s' % list(idx), _val(osf)[idx], tho * c.m[idx])
+                _eq(env, 'optimally_scaled_sfs%s' % list(idx), _val(osf)[idx], tho * c.m[idx])
         del LOGCALLS[:], GAMCALLS[:]
         with np.errstate(all='ignore'):
             pb = Inference.ll_multinom_per_bin(c.M, c.D)
@@ -447,14 +504,14 @@ def body_mn(P):
             L = _log(env, lc[0], idx, tho * c.mf[idx], 'mn')
             G = _lgam(env, gc[0], idx, c.d[idx] + 1, 'mn')
             want = -tho * c.mf[idx] + c.d[idx] * L - G
-            env.eq('multinom per-bin%s' % list(idx), pbd[idx], want)
+            _eq(env, 'multinom per-bin%s' % list(idx), pbd[idx], want)
             tot = tot + want
         del LOGCALLS[:], GAMCALLS[:]
         with np.errstate(all='ignore'):
             ll = Inference.ll_multinom(c.M, c.D)
             mll = Inference.minus_ll_multinom(c.M, c.D)
-        env.eq('ll_multinom = ll(theta*model)', ll, tot)
-        env.eq('minus_ll_multinom', mll, -tot)
+        _eq(env, 'll_multinom = ll(theta*model)', ll, tot)
+        _eq(env, 'minus_ll_multinom', mll, -tot)
     return _with_ack(body)
 
 
@@ -512,18 +569,18 @@ def body_inv(P):
             env.holds('same log mask', bool(np.array_equal(l1[0][2], l2[0][2]) and np.array_equal(l1[0][2], c.mfm)))
             for idx in c.J:
                 # the argument of log is unchanged by the rescaling (then log(..) is unchanged: congruence)
-                env.eq('log-arg invariant%s' % list(idx), l2[0][0][idx], l1[0][0][idx])
-                env.eq('log-arg%s' % list(idx), l1[0][0][idx], sd / sm * c.mf[idx])
-                env.eq('gammaln-arg invariant%s' % list(idx), g2[0][0][idx], g1[0][0][idx])
+                _eq(env, 'log-arg invariant%s' % list(idx), l2[0][0][idx], l1[0][0][idx])
+                _eq(env, 'log-arg%s' % list(idx), l1[0][0][idx], sd / sm * c.mf[idx])
+                _eq(env, 'gammaln-arg invariant%s' % list(idx), g2[0][0][idx], g1[0][0][idx])
                 cong.append((l2[0][1][idx] == l1[0][1][idx]).t if isinstance(l2[0][1][idx] == l1[0][1][idx], S.SymBool)
                             else S.z3.BoolVal(bool(l2[0][1][idx] == l1[0][1][idx])))
                 e = g2[0][1][idx] == g1[0][1][idx]
                 cong.append(e.t if isinstance(e, S.SymBool) else S.z3.BoolVal(bool(e)))
-        env.eq('ll_multinom(c*model) = ll_multinom(model)', ll2, ll1, pre=cong)
+        _eq(env, 'll_multinom(c*model) = ll_multinom(model)', ll2, ll1, pre=cong)
         with np.errstate(all='ignore'):
             t1 = Inference.optimal_sfs_scaling(c.M, c.D)
             t2 = Inference.optimal_sfs_scaling(M2, c.D)
-        env.eq('theta(c*model)*c = theta(model)', t2 * cs, t1)
+        _eq(env, 'theta(c*model)*c = theta(model)', t2 * cs, t1)
     return _with_ack(body)
 
 
@@ -550,8 +607,8 @@ def body_max(P):
         if env.symbolic:
             delta = S.R('DELTA_log_c_over_theta')
             for idx in c.J:
-                env.eq('log-arg multinom%s' % list(idx), l1[0][0][idx], tho * c.mf[idx])
-                env.eq('log-arg scaled%s' % list(idx), l2[0][0][idx], cs * c.mf[idx])
+                _eq(env, 'log-arg multinom%s' % list(idx), l1[0][0][idx], tho * c.mf[idx])
+                _eq(env, 'log-arg scaled%s' % list(idx), l2[0][0][idx], cs * c.mf[idx])
                 # log(c*m) - log(theta*m) = log(c/theta)   [log(xy) = log x + log y, all factors > 0]
                 ax.append((l2[0][1][idx] - l1[0][1][idx] == delta).t)
             # log(x) <= x - 1 at x = c/theta > 0
@@ -589,12 +646,12 @@ def body_resid(P, lvl_mode):
             if rm[idx]:
                 continue
             if env.symbolic:
-                env.eq('sqrt-arg%s' % list(idx), sc[0][0][idx], c.mf[idx])
+                _eq(env, 'sqrt-arg%s' % list(idx), sc[0][0][idx], c.mf[idx])
                 s = sc[0][1][idx]
                 env.assume(_and(s >= 0, s * s == sc[0][0][idx]))      # contract of the sqrt stub
             else:
                 s = math.sqrt(c.mf[idx])
-            env.eq('residual = (model-data)/sqrt(model)%s' % list(idx), rd[idx], (c.mf[idx] - c.d[idx]) / s)
+            _eq(env, 'residual = (model-data)/sqrt(model)%s' % list(idx), rd[idx], (c.mf[idx] - c.d[idx]) / s)
             env.holds('positive iff model > data%s' % list(idx), _iff(rd[idx] > 0, c.mf[idx] > c.d[idx]))
             env.holds('negative iff model < data%s' % list(idx), _iff(rd[idx] < 0, c.mf[idx] < c.d[idx]))
     return _with_ack(body)
@@ -628,8 +685,8 @@ def body_gibbs(P):
         ax = []
         if env.symbolic:
             for idx in c.J:
-                env.eq('log-arg model%s' % list(idx), l1[0][0][idx], tho * c.mf[idx])
-                env.eq('log-arg data%s' % list(idx), l2[0][0][idx], c.d[idx])
+                _eq(env, 'log-arg model%s' % list(idx), l1[0][0][idx], tho * c.mf[idx])
+                _eq(env, 'log-arg data%s' % list(idx), l2[0][0][idx], c.d[idx])
                 # log(theta*m) - log(d) = log(theta*m/d) <= theta*m/d - 1, multiplied by d > 0
                 lam = l1[0][1][idx] - l2[0][1][idx]
                 ax.append((c.d[idx] * lam <= tho * c.mf[idx] - c.d[idx]).t)
@@ -746,7 +803,7 @@ def units(tier, seed):
                 cases.append(P)
     # --- unfolded model, unfolded data
     add((4,), allpairs=True)
-    add((5,), allpairs=thorough, nrand=3)
+    add((5,), allpairs=thorough, nrand=2)
     add((2, 3), allpairs=thorough, maxmasked=2, nrand=2)
     add((3, 3), nrand=6 if thorough else 2)
     add((2, 2, 2), nrand=6 if thorough else 2)
@@ -772,7 +829,7 @@ def units(tier, seed):
     # --- corners unmasked in BOTH spectra: equal masks, and differing masks (Numerics.intersect_masks must not
     #     re-mask the corners: theta is over the entries masked in neither)
     ccases = []
-    for shape in ((4,), (5,), (2, 3)) + (((3, 3), (2, 2, 2)) if thorough else ()):
+    for shape in ((4,), (2, 3)) + (((5,), (3, 3), (2, 2, 2)) if thorough else ()):
         inner = [idx for idx in np.ndindex(*shape) if idx not in _corners(shape)]
         ccases.append(('corners-equalmask-', dict(shape=list(shape), mm=_flat(shape, inner[:1]),
                                                   dm=_flat(shape, inner[:1]), fold='none')))
@@ -792,7 +849,7 @@ def units(tier, seed):
                          expect_paths=1, timeout_s=300, maxpaths=400))
     # --- rescaling: invariance and maximum over c > 0; residuals
     sub = [P for P in cases if int(np.prod(P['shape'])) <= (9 if thorough else 6)]
-    step = 1 if thorough else 3
+    step = 2 if thorough else 3
     for k, P in enumerate(sub):
         nJ = int((~joint_of(P)).sum())
         nm = _name(P)
@@ -802,7 +859,7 @@ def units(tier, seed):
         if step == 1 or k % step == 1 or P['fold'] != 'none':
             us.append(H.Unit('max-' + nm, body_max(P), params=P, setup=_setup, min_obligations=2 * nJ + 1,
                              expect_paths=1, timeout_s=300, maxpaths=400))
-        if step == 1 or k % step == 2 or P['fold'] != 'none':
+        if step == 1 or k % step == 2 % step or P['fold'] != 'none':
             us.append(H.Unit('resid-' + nm, body_resid(P, 'none'), params=dict(P, lvl='none'), setup=_setup,
                              min_obligations=4 * nJ + 1, expect_paths=1, timeout_s=300, maxpaths=400))
         if nJ <= (5 if thorough else 3) and (step == 1 or k % step == 0 or P['fold'] != 'none'):
@@ -821,4 +878,7 @@ def units(tier, seed):
         nJ = int((~joint_of(P)).sum())
         us.append(H.Unit('gibbs-' + _name(P), body_gibbs(P), params=P, setup=_setup, min_obligations=2 * nJ + 1,
                          expect_paths=1, timeout_s=600, maxpaths=50, stretch=True, query_timeout_ms=120000))
+    for u in us:
+        if u.name != 'gibbs-lemma':
+            u.replay = _replay_for(u.body)
     return us
